@@ -490,7 +490,7 @@ pub fn bfs_check<const N: usize>(prop: &str, o: &Opts, rep: &mut Report) {
     if prop == "C03" && o.shard.0 == 0 {
         crate::zst::zst_twin::<N>(prop, rep);
     }
-    if prop == "C11" && N == 0 && o.shard.0 == 0 {
+    if (prop == "C11" || prop == "C02") && N == 0 && o.shard.0 == 0 {
         // the boundary of the documented panics at len == usize::MAX
         for p in crate::c19::huge_full_probes() {
             rep.violation(Violation {
